@@ -232,6 +232,12 @@ func catalogue(rec *recorder) map[string]interface{} {
 		"Mix3":  func(a uint8, s string, c int32) int32 { rec.add("Mix3", a, s, c); return c },
 		"NoRet": func() { rec.add("NoRet") },
 		"Boom":  func() { panic("catalogue Boom") },
+		// panics whose VALUE is an error: an explicit panic(err), and a runtime error raised inside the Go function
+		"BoomErr": func() { panic(fmt.Errorf("catalogue BoomErr")) },
+		"BoomRT": func() int64 {
+			var a []int64
+			return a[3]
+		},
 		"Gate": func(n string) { // Hold without the second record: one call recorded whatever the interleaving
 			rec.add("Gate", n)
 			if rec.gate != nil {
